@@ -84,6 +84,9 @@ class MetaOnly(Suite):
                     sel.append(by[near]["ln"])
             if bigp is not None:
                 sel = [p for p in sel if p != bigp and not (by[p]["t"] == "hardlink" and by[p]["ln"] == bigp)]
+            # (a hard link whose source is the listing name or lies below it cannot be selected: the statement asks for selectors that
+            # select the link source too, and nothing can be materialised at or below that name)
+            sel = [p for p in sel if not (by[p]["t"] == "hardlink" and (by[p]["ln"] == META or by[p]["ln"].startswith(META + "2f")))]
             # closed under link sources
             for p in list(sel):
                 e = by[p]
